@@ -18,11 +18,11 @@ macro "tie_arith" : tactic => `(tactic| (
 
 /-- Go's truncated `/` and `%` are the Euclidean ones on a non-negative dividend (side goals by `omega`,
     products of non-negative factors included) -/
-macro "tdiv_norm" : tactic => `(tactic|
+macro "tdiv_norm" : tactic => `(tactic| try
   simp (disch := first | omega | (apply Int.mul_nonneg <;> omega) | (apply Int.natCast_nonneg)) only
     [Int.tdiv_eq_ediv_of_nonneg, Int.tmod_eq_emod_of_nonneg])
 
-macro "tdiv_norm" "at" h:ident : tactic => `(tactic|
+macro "tdiv_norm" "at" h:ident : tactic => `(tactic| try
   simp (disch := first | omega | (apply Int.mul_nonneg <;> omega) | (apply Int.natCast_nonneg)) only
     [Int.tdiv_eq_ediv_of_nonneg, Int.tmod_eq_emod_of_nonneg] at $h:ident)
 
